@@ -60,9 +60,20 @@ func runSession(c *rp.Ctx, cs sessionCase, seg string, lockstep bool) error {
 	peer := map[string]string{"A": "B", "B": "A"}
 	expIn := map[string]int64{"A": 128, "B": 128}
 
+	// every message handed out stays what it was: messages are kept and compared again at the end
+	// (a reader that recycles buffers would change a message the application already holds)
+	type held struct {
+		k int
+		s step
+		m *rtmp.Message
+	}
+	var kept []held
 	read := func(k int, s step) error {
 		r := end[peer[s.E]]
 		got, err := r.ReadMessage()
+		if err == nil {
+			kept = append(kept, held{k, s, got})
+		}
 		if err != nil {
 			return fmt.Errorf("step %d: %s reading message id %d (type %d, %d bytes, cut with %d): %v", k, peer[s.E], s.M.ID, s.M.Type, s.M.Len, s.Cs, err)
 		}
@@ -103,6 +114,11 @@ func runSession(c *rp.Ctx, cs sessionCase, seg string, lockstep bool) error {
 			if err := read(k, s); err != nil {
 				return err
 			}
+		}
+	}
+	for _, h := range kept {
+		if err := h.s.M.Same(h.m, c.Seed); err != nil {
+			return fmt.Errorf("step %d: the message id %d that %s had read changed after later reads: %v", h.k, h.s.M.ID, peer[h.s.E], err)
 		}
 	}
 	// nothing may be left over or fabricated: both directions are drained exactly
